@@ -260,10 +260,21 @@ MUTUAL = [
 ]
 
 
+FINE = [  # right-hand sides whose exact value needs more than 4 decimals / is not a dyadic number
+    "(and (increase (f) (* (g ?x) 0.0001)))",
+    "(and (assign (g ?x) (+ (g ?x) (* (f) 0.00001))))",
+    "(and (decrease (f) (/ (g ?x) 3)))",
+    "(and (when (r) (assign (f) (* (* (g ?x) 0.003) 0.01))))",
+    "(and (assign (f) (/ (+ (g ?x) 9.97991) 3)))",
+]
+
+
 def eff_programs(tier: str):
     # effects that read what another effect of the same action writes (zero-arity and parameterised fluents)
     for text in MUTUAL:
         yield program("xy", "(and)", text, ["mutual"])
+    for text in FINE:
+        yield program("xy", "(and)", text, ["fine", "inexact"])
     for text, tags in eff_formulas(tier):
         if compatible("xy", text):
             yield program("xy", "(and)", text, tags)
